@@ -104,11 +104,14 @@ CLAIMS['C08'] = dict(
          'fewer than 2^32-256 tokens in total.',
     design_ref='DESIGN.md 5 C08')
 CLAIMS['C14'] = dict(
-    text='PARTIAL: unbounded proof that get_scope_for_token returns the name attached to the last function-map entry at or before (original line + 1, original column) '
-         '(GLB contract over (u64 line, column) keys), nothing without a function map or before all entries, and nothing for an out-of-range name index. Function-map '
-         'decoding (decode_hermes) and the serialise/decode stability are not yet under contract.',
-    note=_TB + 'function maps are required ordered by (line, column), as Metro emits them.',
-    design_ref='DESIGN.md (C14 added in the build phase)')
+    text='PARTIAL: unbounded proof that (1) get_scope_for_token returns the name attached to the last function-map entry at or before (original line + 1, original column) '
+         '(GLB contract over (u64 line, column) keys), nothing without a function map or before all entries, and nothing for an out-of-range name index; (2) the function-map '
+         'decoder inside decode_hermes (the closure body, outlined) computes the independent reading of Metro\'s format (spec/hermes_decode.rs: groups by \';\', segments by '
+         '\',\', column relative within a group, name index and line relative across the string, line starting at 1 and advanced only by the third value, omitted values = 0): '
+         'Some(entries) exactly as the reference reads them, None exactly when a segment is not valid VLQ. The wrapper (first scope mapping of each non-null entry, collect, '
+         'decode_regular of the rest, raw metadata kept for re-encoding) and get_original_function_name are bounded only.',
+    note=_TB + 'function maps are required ordered by (line, column), as Metro emits them. Values leaving the u32 range are outside the domain (Unfit).',
+    design_ref='DESIGN.md 5 C14')
 
 CLAIMS['C05'] = dict(
     text='PARTIAL SCOPE, unbounded where it applies: for every function under contract (listed in evidence.functions_under_contract) Verus proves absence of arithmetic '
@@ -185,7 +188,7 @@ NOT_COVERED = {
     'C05': ['dependencies (serde_json, url, bitvec, data-encoding, base64-simd, debugid)', 'sourceview.rs, js_identifiers.rs, detector.rs line scan, Display/Debug impls, ram_bundle.rs',
             'flatten (+ off_col / + off_line overflow, design-phase defect D6), rewrite, adjust_mappings, range bitfield writer (D4), decode_hermes', 'allocation in proportion to the input; wall-clock (only termination is proved)'],
     'C08': ['agreement lemma lookup vs flatten (needs: flattened tokens of properly nested sections are already sorted, and SourceMap::lookup_token on the concatenation): bounded stand-in index_flatten only'  , 'flatten_and_rewrite (composition of two proved functions, not itself under contract)'],
-    'C14': ['decode_hermes function-map decoding (running column/name/line state)', 'get_original_function_name wrapper', 'stability under serialise/decode'],
+    'C14': ['decode_hermes wrapper around the function-map decoder (destructuring of the first scope mapping, collect, decode_regular): bounded stand-in hermes_scope', 'get_original_function_name wrapper', 'stability under serialise/decode (raw metadata retained): bounded'],
     'C01': ['as_raw_sourcemap field plumbing (SourceMap / SourceMapIndex / Hermes): bounded stand-in roundtrip only', 'serde_json layer'],
     'C02': ['the six `let` lines of decode_regular that unpack the raw document (checked textually, not verified)', 'termination of the decode_index / decode_common recursion (bounded by serde_json)', 'decode_hermes'],
     'C03': ['as_raw_sourcemap field plumbing and the serde skip_serializing_if attributes', 'index-map documents (sections array): bounded only'],
